@@ -9,7 +9,8 @@ from ..core import VOCAB, render
 RULE = ("valid v4.0 vectors: per scoring group (AV/PR/UI, AC/AT, VC/VI/VA/CR/IR/AR, SC/SI/SA incl. Safety, E) "
         "every group assignment in random contexts, plus random full vectors; effective values spelled "
         "through base metrics, Modified overrides, absent / explicit X, with supplemental noise; distinct = "
-        "distinct set of defined fields; compared model-vs-code and Lean-specification-vs-code")
+        "distinct set of defined fields; compared model-vs-code and Lean-specification-vs-code"
+        " + special families (corner vectors, every metric spelled out, frozen rounding ties, v2 low-end and cap families, base + one optional metric); the same string constructed three times; scores read from as_json() under the four option sets; 4 warm threads (1 us switch interval); fresh processes whose first use of the package is concurrent")
 ASSUMPTIONS = ["binary floating point modelled by exact rationals (v4_epsilon_robust: the exact value is never within 1e-5 below a rounding boundary)"]
 
 GROUPS = [["AV", "PR", "UI"], ["AC", "AT"], ["VC", "VI", "VA", "CR", "IR", "AR"], ["SC", "SI", "SA"], ["E"]]
